@@ -419,6 +419,19 @@ func (c *Ctx) checkProgramLoopsAndAllocs(r *Report) {
 			}
 			r.Check(ok, "C09.R4", ssaFuncName(fn), kind+" sized by a program integer is dominated by the memory guard", c.Pos(in.Pos()),
 				"an allocation whose size a program chooses is not preceded by MustBeOk/MakeObjectSlice on that size: the process can be driven out of memory (fatal) or into a runtime panic")
+			if call, isCall := in.(*ssa.Call); isCall && kind == "strings.Repeat" {
+				// the result has len(s) * count bytes: a guard on the count alone budgets one byte per repetition
+				if _, isConst := call.Common().Args[0].(*ssa.Const); !isConst {
+					okLen := false
+					for _, g := range gs {
+						if instrDominates(g.call, in) && derives(g.arg, call.Common().Args[0], 0) {
+							okLen = true
+						}
+					}
+					r.Check(okLen, "C09.R4", ssaFuncName(fn), "strings.Repeat of a program string is guarded on a size that includes the string's length", c.Pos(in.Pos()),
+						"the size handed to the memory guard before strings.Repeat(s, n) is not computed from len(s): the result has len(s)*n bytes, so a long s with a moderate n passes the guard and allocates far more than the budget")
+				}
+			}
 		})
 		// library calls whose result is not linear in any one operand (each match / verb can expand)
 		eachInstr(fn, func(in ssa.Instruction) {
